@@ -75,6 +75,11 @@ def check_embedded(ctx, s, pre, suf, pre_plain, suf_plain, want_view):
     return True
 
 
+def TM_strip(t):
+    """Text removes BS, VT, FF and CR from what it is given."""
+    return "".join(c for c in t if c not in "\x07\x08\x0b\x0c\r")
+
+
 class EscapeExhaustive(Part):
     name = "escape-exhaustive"
     custom = True
@@ -154,6 +159,53 @@ class EscapeExhaustive(Part):
             if side_ok(s):
                 for pre, suf, pp, sp, view in CONTEXTS:
                     check_embedded(ctx, s, pre, suf, pp, sp, view)
+
+
+class BracketAnyChar(Part):
+    name = "bracket-any-character"
+    custom = True
+    exhaustive = True
+    rule = ("for every code point c of the Basic Multilingual Plane (surrogates aside) and every 64th astral one: the strings '[' c 'x]', '\\[' c 'x]', 'a[' c ']b', '[/' c ']' and "
+            "'[x' c 'y]' go through escape() alone and - when the side condition holds - embedded in 3 markup contexts: the parser and escape() must agree on what a tag is "
+            "whatever follows the bracket; non-trivial = c is not a letter, digit or one of the ASCII characters of the small alphabet")
+    budget = {"quick": (16, 1), "thorough": (16, 1)}
+
+    def run_shard(self, tier, shard, nshards, seed, stats, deadline, known):
+        ctx = Ctx()
+        n = nt = 0
+        cps = [cp for cp in range(0x20, 0x10000) if not 0xD800 <= cp <= 0xDFFF] + list(range(0x10000, 0x110000, 64 if tier == "quick" else 8))
+        bad = None
+        for i, cp in enumerate(cps):
+            if i % nshards != shard:
+                continue
+            c = chr(cp)
+            for s in ("[" + c + "x]", "\\[" + c + "x]", "a[" + c + "]b", "[/" + c + "]", "[x" + c + "y]"):
+                n += 1
+                ok = check_escape(ctx, s, emoji_too=False)
+                if ok and side_ok(s):
+                    for pre, suf, pp, sp, view in CONTEXTS:
+                        n += 1
+                        ok = ok and check_embedded(ctx, s, pre, suf, pp, sp, view)
+                if not ok:
+                    bad = s
+                    break
+            if bad:
+                break
+            if not (c.isalnum() or c in ALPHA):
+                nt += 1
+            if n % 5000 < 8 and time.time() > deadline:
+                stats.capped = True
+                break
+        stats.evaluations += n
+        stats.nontrivial_count_distinct += nt
+        if not stats.capped:
+            stats.done += 1
+        stats.samples.append((1, {"shard": shard, "code_points": len(cps) // nshards, "example": "[@x]"}, "range"))
+        for v in ctx.violations:
+            stats.found.setdefault(v.sig, {"spec": {"s": bad}, "clause": v.clause, "detail": v.detail, "size": 1, "part": self.name})
+
+    def replay(self, spec, ctx):
+        EscapeExhaustive().replay(spec, ctx)
 
 
 # ------------------------------------------------------------------------------------------------ tag documents
@@ -294,7 +346,8 @@ class TagDocs(Part):
     def strategy(self, tier):
         free = st.lists(event_strategy(), min_size=1, max_size=14).map(lambda evs: [list(e) for e in evs])
         base = st.one_of(st.none(), st.none(), st.sampled_from(GS.PALETTE))
-        return st.builds(lambda evs, b1, b2: {"events": evs, "base": b1, "base2": b2}, st.one_of(free, well_nested(), well_nested()), base, base)
+        switch = st.one_of(st.none(), st.tuples(st.booleans(), st.sampled_from([None, True, False])).map(list))
+        return st.builds(lambda evs, b1, b2, sw: {"events": evs, "base": b1, "base2": b2, "switch": sw}, st.one_of(free, well_nested(), well_nested()), base, base, switch)
 
     def check(self, spec, ctx):
         from rich.markup import render
@@ -356,6 +409,25 @@ class TagDocs(Part):
         t2 = sut(Text.from_markup, markup, emoji=False)
         if t2.plain != plain or TV.char_styles(t2) != got:
             ctx.violation("styling", "C04/style/from_markup", "Text.from_markup(%r) differs from markup.render" % markup)
+            return
+        # through a console: the per-call markup switch overrides the console's own setting, in both directions
+        import io
+        from rich.console import Console
+
+        sw = spec.get("switch")
+        if sw is not None:
+            cm, pm = sw
+            con = sut(Console, file=io.StringIO(), markup=cm, emoji=False, highlight=False, color_system=None, width=400, _environ={})
+            t3 = sut(con.render_str, markup, markup=pm, emoji=False, highlight=False)
+            enabled = cm if pm is None else pm
+            if enabled:
+                if t3.plain != plain or TV.char_styles(t3) != got:
+                    ctx.violation("styling", "C04/switch/not-rendered", "Console(markup=%r).render_str(%r, markup=%r) gives %r with %r; markup is enabled for this call" % (cm, markup, pm, t3.plain, t3.spans))
+                    return
+            elif t3.plain != TM_strip(markup) or t3.spans:
+                ctx.violation("styling", "C04/switch/rendered-although-disabled", "Console(markup=%r).render_str(%r, markup=%r) gives %r with %r; markup is disabled for this call" % (cm, markup, pm, t3.plain, t3.spans))
+                return
+            ctx.cls("console-switch-%s-%s" % (cm, pm))
         # non-trivial: conflicting open tags over some character
         stack = []
         conflict = False
@@ -447,4 +519,4 @@ class EscapeGenerated(Part):
             ctx.cls("embedded")
 
 
-PARTS = [EscapeExhaustive(), EscapeGenerated(), TagDocs()]
+PARTS = [EscapeExhaustive(), EscapeGenerated(), TagDocs(), BracketAnyChar()]
